@@ -238,6 +238,99 @@ def reconnect_suite(ctx, vh):
                                     "C15_no_reconnection", "C15_idle_is_quiet"], "case": show(judged[i])}, no_input=True)
 
 
+OFF_HDR = "From SioV Require Import Base.GoSem Sio.OfflineBuffer Sio.OfflineCheck.\n"
+HK = {"N": "HNoAck", "S": "HAckSync", "Q": "HAckSilent"}
+
+
+def off_op_term(o):
+    k = o["op"]
+    if k == "emit":
+        return "(Emit %s %s %s %s)" % (gN(o.get("l", 0)), gbool(o.get("vol", False)), gbool(o.get("ack", False)), gnat(o.get("att", 0)))
+    if k == "recv":
+        i = o.get("id", 0)
+        return "(Recv %s %s %s)" % (gN(o.get("l", 0)), gopt(gN(i) if i >= 0 else None), glist(HK[c] for c in o["hs"]))
+    return {"open": "MgrOpen", "reply": "ConnectReply", "close": "Close"}[k]
+
+
+def off_term(row, upto=None):
+    n = len(row["ops"]) if upto is None else upto
+    obs = []
+    for w, c in list(zip(row["wire"], row["calls"]))[:n]:
+        ws = glist(gpair(gN(k), gN(l if l >= 0 else 999999), gnat(i), gopt(gN(a) if a >= 0 else None)) for k, l, i, a in w)
+        cs = glist(gpair(gN(l), gnat(h)) for l, h in c)
+        obs.append(gpair(ws, cs))
+    return gpair(glist(off_op_term(o) for o in row["ops"][:n]), glist(obs))
+
+
+def off_show(row):
+    def one(o):
+        if o["op"] == "emit":
+            return "emit(%d%s%s%s)" % (o.get("l", 0), ",volatile" if o.get("vol") else "", ",ack" if o.get("ack") else "",
+                                       ",%d attachments" % o["att"] if o.get("att") else "")
+        if o["op"] == "recv":
+            return "recv(%d,id=%d,handlers=%s)" % (o.get("l", 0), o.get("id", 0), o["hs"])
+        return o["op"]
+    return [one(o) for o in row["ops"]]
+
+
+def offline_suite(ctx, vh):
+    import json, os
+    rows = ctx.vh_jsonl(vh, "offline", ["-seed", ctx.seed, "-n", 110 if ctx.quick else 1500, "-par", 10], timeout=900)
+    if rows is None:
+        return
+    disturbed = [r for r in rows if r["timeout"]]
+    ctx.indeterminate += len(disturbed)
+    if len(disturbed) * 5 > len(rows):
+        ctx.violation("offline rig: %d of %d histories could not be driven to the end (an operation's effect never showed up, "
+                      "e.g. %s at %s)" % (len(disturbed), len(rows), off_show(disturbed[0]), disturbed[0]["timeout"]),
+                      {"kind": "correspondence-broken", "suite": "offline/live", "theorems": ["C15_offline_exactly_once_in_order"],
+                       "case": {"ops": off_show(disturbed[0]), "stopped_at": disturbed[0]["timeout"]}}, no_input=True)
+    # a history that stopped early is judged on the part that completed
+    terms = [off_term(r, None if not r["timeout"] else max(0, len(r["wire"]) - 1)) for r in rows]
+    bad_oracle, bad_agree = eval_both(ctx, "off", OFF_HDR, terms, shard=max(20, (len(terms) + 7) // 8))
+    suspects = sorted(set(bad_oracle) | set(bad_agree))
+    if suspects:   # live rig: only what reproduces when run again, alone, is reported
+        again = []
+        for i in suspects:
+            path = os.path.join(ctx.work, "off_suspect.json")
+            one = ctx.vh_jsonl(vh, "offline", ["-replay", json.dumps(rows[i]["ops"]), "-n", 0, "-seed", i], timeout=300)
+            if one is None:
+                return
+            again.append(one[0])
+        t2 = [off_term(r, None if not r["timeout"] else max(0, len(r["wire"]) - 1)) for r in again]
+        bo2, ba2 = eval_both(ctx, "off_again", OFF_HDR, t2, shard=50)
+        bo2, ba2 = {suspects[j] for j in bo2}, {suspects[j] for j in ba2}
+        ctx.indeterminate += len(set(bad_oracle) - bo2) + len(set(bad_agree) - ba2)
+        bad_oracle = [i for i in bad_oracle if i in bo2]
+        bad_agree = [i for i in bad_agree if i in ba2]
+    for r in rows:
+        kinds = set(o["op"] for o in r["ops"])
+        parked = any(o["op"] == "emit" for o in r["ops"]) and "reply" in kinds
+        ctx.count(1, nontrivial_key=("off", json.dumps(r["ops"], sort_keys=True)) if parked else None,
+                  dist="offline:%s%s" % ("recv+" if "recv" in kinds else "", "reconnect" if sum(1 for o in r["ops"] if o["op"] == "open") > 1 else "single"))
+    ctx.sample({"suite": "offline/live", "ops": off_show(rows[len(rows) // 2]), "wire": rows[len(rows) // 2]["wire"]})
+    ctx.obligation("correspondence:offline/live", "correspondence", not bad_agree,
+                   "%d histories (<= 13 ops) against a real client + raw protocol server, %d disagree, %d stopped early" % (
+                       len(rows), len(bad_agree), len(disturbed)))
+    ctx.obligation("oracle:offline/live", "oracle", not bad_oracle, "%d histories, %d fail" % (len(rows), len(bad_oracle)))
+    for i in bad_oracle[:3]:
+        r = rows[i]
+        ctx.violation("offline buffer: history %s -> the server received (per operation; [kind,label,frame,ack], kind 1 = event frame, 2 = ack) %s, "
+                      "handlers run %s: a non-volatile emit made while not connected is missing / duplicated / out of order after the CONNECT reply, "
+                      "or a volatile one was sent, or a parked event's handler did not run exactly once"
+                      % (off_show(r), r["wire"], r["calls"]),
+                      {"kind": "failing-input", "engine": "offline", "case": {"ops": r["ops"], "wire": r["wire"], "calls": r["calls"]},
+                       "replay": "vh offline -n 0 -replay '<ops as JSON>'"})
+    if bad_agree and not bad_oracle:
+        r = rows[bad_agree[0]]
+        ctx.violation("client socket buffering differs from the model Sio/OfflineBuffer.v (theorems C15_offline_* are about the model); "
+                      "history %s, observed wire %s, calls %s" % (off_show(r), r["wire"], r["calls"]),
+                      {"kind": "correspondence-broken", "suite": "offline/live",
+                       "theorems": ["C15_offline_exactly_once_in_order", "C15_delivered_after_connect", "C15_reply_hands_over_offline_emits",
+                                    "C15_volatile_offline_dropped", "C15_buffered_events_called_once"],
+                       "case": {"ops": r["ops"], "wire": r["wire"], "calls": r["calls"]}}, no_input=True)
+
+
 def run(ctx):
     ctx.rule = ("back-off: boundary grid (min x max x attempt x jitter incl. int64 wrap points, attempts 0..70, 1023..1025, 2^31, 2^32-1) "
                 "+ seeded random inputs with the PRNG draw reproduced exactly; non-trivial = the product wraps, jitter is on, or max >= 2^53")
@@ -245,9 +338,10 @@ def run(ctx):
                    "hand-written models Sio/Backoff.v, Sio/Reconnect.v, Sio/OfflineBuffer.v tied by kernel-evaluated correspondence",
                    "harness cmd/vh backoff|reconnect|offline + hook backoff_verif.go"]
     ctx.assumptions = ["math/rand top-level functions follow rand.Seed (Go <= 1.23 behaviour; the engine verifies it per case)"]
-    ctx.proofs(modules=["Sio/BackoffCheck", "Sio/ReconnectCheck"])
+    ctx.proofs(modules=["Sio/BackoffCheck", "Sio/ReconnectCheck", "Sio/OfflineCheck"])
     vh = ctx.go_build()
     if vh is None:
         return
     backoff_suite(ctx, vh)
     reconnect_suite(ctx, vh)
+    offline_suite(ctx, vh)
